@@ -141,9 +141,13 @@ def tcp_pair(rng, cfg, P, stream, port, heavy=False, both=False, reuse=False):
             P.do(c, "%s.write h%d stream=%d len=%d bufs=%d" % (s, h, stream, ln, rng.choice([1, 1, 2, 3])))
             c = "h%d" % h; left -= ln
         return c
+    def late_view(ctx, s):
+        # the endpoint views once more, from an I/O completion handler: by then payload / ACKs of the connection
+        # crossed the routes (and their NAT hops) in both directions; the views of a connection never change
+        P.do(ctx, "%s.remote" % s); P.do(ctx, "%s.local" % s)
     def reader(s, ctx, n):
         c = ctx
-        for _ in range(n):
+        for i in range(n):
             h = P.h()
             if rng.random() < 0.2:
                 P.do(c, "%s.wait_read h%d" % (s, h))
@@ -152,12 +156,14 @@ def tcp_pair(rng, cfg, P, stream, port, heavy=False, both=False, reuse=False):
             else:
                 P.do(c, "%s.read h%d cap=%d bufs=%d" % (s, h, rng.choice([1, 7, 100, 1475, 4096, 65536]), rng.choice([1, 1, 2, 4])))
             c = "h%d" % h
+            if i in (0, n - 1): late_view(c, s)
         return c
     total = rng.choice([1, 100, 3000, 10000, 40000] if heavy else [1, 50, 1500, 4000, 9000])
     wend = writer(cs, "h%d" % hcon, stream, total)
+    late_view(wend, cs)
     rend = reader(ss, "h%d" % hacc, rng.choice([3, 8, 20, 40]) if heavy else rng.choice([2, 5, 12]))
     if both:
-        writer(ss, "h%d" % hacc, stream + 1, rng.choice([1, 500, 5000]))
+        late_view(writer(ss, "h%d" % hacc, stream + 1, rng.choice([1, 500, 5000])), ss)
         reader(cs, "h%d" % hcon, rng.choice([2, 6, 12]))
     x = rng.random()
     if x < 0.6: P.do(wend, "%s.close" % cs)
